@@ -1,7 +1,8 @@
-(** C13 — the two-accumulator assembly of processFetchForMessage yields a
-    well-formed FETCH response that pairs every item with its own value
-    exactly when every contribution except possibly the last is inline; and
-    the LIST/LSUB/STATUS lines are well-formed for plain mailbox names. *)
+(** C13 — the assembly of processFetchForMessage (every literal inside the
+    part of its item, F14 fix) yields a well-formed FETCH response that pairs
+    every item with its own value, for EVERY list of contributions; and the
+    LIST/LSUB/STATUS lines are well-formed for every mailbox name (F15 fix:
+    names go through utils.QuoteString). *)
 From Coq Require Import String Ascii List Bool Arith NArith Lia.
 From Raven Require Import Base.GoStr Base.GoStrFacts Spec.Grammar Model.Respond
      Proof.Grammar Proof.RespondTok.
@@ -71,121 +72,44 @@ Qed.
 
 (** ---- the assembly ---- *)
 
-Definition part_text (o : out) : str :=
-  match o with Inline n v => n ++ [SP] ++ v | Lit n _ | LitOver n _ => n end.
-
-Fixpoint lit_of (plan : list out) (lit : str) : str :=
-  match plan with
-  | [] => lit
-  | Inline _ _ :: r => lit_of r lit
-  | Lit _ p :: r => lit_of r ((match lit with [] => [] | _ => lit ++ [SP] end) ++ lit_text p)
-  | LitOver _ p :: r => lit_of r (lit_text p)
-  end.
-
-Lemma accumulate_eq plan : forall parts lit,
-  accumulate plan parts lit = (parts ++ map part_text plan, lit_of plan lit).
-Proof.
-  induction plan as [|o plan IH]; intros parts lit; cbn [accumulate map lit_of].
-  - now rewrite app_nil_r.
-  - destruct o; rewrite IH, <- app_assoc; reflexivity.
-Qed.
-
-Definition all_inline (pl : list out) : Prop := Forall (fun o => is_lit o = false) pl.
-
-Lemma classify_shape plan : plan <> [] -> classify_plan plan = None ->
-  exists pl o, plan = pl ++ [o] /\ all_inline pl.
-Proof.
-  induction plan as [|o plan IH]; intros Hne H; [congruence|].
-  destruct plan as [|o' plan].
-  - exists [], o. split; [reflexivity|constructor].
-  - cbn [classify_plan] in H. destruct (is_lit o) eqn:Ho; [discriminate|].
-    destruct (IH ltac:(discriminate) H) as (pl & ol & E & Hpl).
-    exists (o :: pl), ol. split; [now rewrite E|]. constructor; assumption.
-Qed.
-
-Lemma lit_of_inline pl : all_inline pl -> forall tail lit, lit_of (pl ++ tail) lit = lit_of tail lit.
-Proof.
-  induction 1 as [|o pl Ho _ IH]; intros tail lit; [reflexivity|].
-  destruct o; cbn in Ho; try discriminate. cbn [app lit_of]. apply IH.
-Qed.
-
 Definition toks_of (plan : list out) : list str := flat_pairs (map pair_of plan).
 
-Lemma join_inline pl : all_inline pl -> join (map part_text pl) [SP] = join (toks_of pl) [SP].
+Lemma part_text_pair o : part_text o = fst (pair_of o) ++ [SP] ++ snd (pair_of o).
+Proof. destruct o; reflexivity. Qed.
+
+Lemma join_parts plan : join (map part_text plan) [SP] = join (toks_of plan) [SP].
 Proof.
-  unfold toks_of. induction 1 as [|o pl Ho Hpl IH]; [reflexivity|].
-  destruct o as [n v| |]; cbn in Ho; try discriminate.
-  destruct pl as [|o2 pl].
-  - cbn. reflexivity.
-  - change (join (map part_text (Inline n v :: o2 :: pl)) [SP])
-      with ((n ++ [SP] ++ v) ++ [SP] ++ join (map part_text (o2 :: pl)) [SP]).
-    rewrite IH.
-    inversion Hpl as [|? ? Ho2 _]; subst. destruct o2 as [n2 v2| |]; cbn in Ho2; try discriminate.
-    cbn [map pair_of flat_pairs join]. now rewrite <- !app_assoc.
-Qed.
-
-Lemma toks_of_app a b : toks_of (a ++ b) = toks_of a ++ toks_of b.
-Proof.
-  unfold toks_of. induction a as [|o a IH]; [reflexivity|].
-  cbn [app map flat_pairs]. destruct (pair_of o). cbn [flat_pairs app]. now rewrite IH.
-Qed.
-
-(** the text between "FETCH (" and the closing parenthesis *)
-Definition body_of (plan : list out) : str :=
-  let '(parts, lit) := accumulate plan [] [] in
-  join parts [SP] ++ match lit with [] => [] | _ => [SP] ++ lit end.
-
-Lemma lit_text_nonempty p : lit_text p <> [].
-Proof. discriminate. Qed.
-
-Lemma body_tokens plan : plan <> [] -> classify_plan plan = None ->
-  body_of plan = join (toks_of plan) [SP].
-Proof.
-  intros Hne Hc. destruct (classify_shape plan Hne Hc) as (pl & o & -> & Hpl).
-  unfold body_of. rewrite accumulate_eq. cbn [app]. rewrite lit_of_inline by exact Hpl.
-  destruct o as [n v|n p|n p].
-  - cbn [lit_of]. rewrite app_nil_r. apply join_inline.
-    apply Forall_app. split; [exact Hpl|repeat constructor].
-  - cbn [lit_of app]. rewrite map_app, toks_of_app. cbn [map part_text].
-    destruct pl as [|o1 pl].
-    + cbn. reflexivity.
-    + rewrite join_snoc by discriminate.
-      rewrite join_app2; [|destruct o1 as [? ?|? ?|? ?]; discriminate|discriminate].
-      rewrite (join_inline _ Hpl). cbn [toks_of map pair_of flat_pairs join].
-      now rewrite <- !app_assoc.
-  - cbn [lit_of app]. rewrite map_app, toks_of_app. cbn [map part_text].
-    destruct pl as [|o1 pl].
-    + cbn. reflexivity.
-    + rewrite join_snoc by discriminate.
-      rewrite join_app2; [|destruct o1 as [? ?|? ?|? ?]; discriminate|discriminate].
-      rewrite (join_inline _ Hpl). cbn [toks_of map pair_of flat_pairs join].
-      now rewrite <- !app_assoc.
+  unfold toks_of. induction plan as [|o plan IH]; [reflexivity|].
+  destruct plan as [|o2 plan].
+  - cbn [map flat_pairs join]. rewrite part_text_pair. destruct (pair_of o). reflexivity.
+  - change (join (map part_text (o :: o2 :: plan)) [SP])
+      with (part_text o ++ [SP] ++ join (map part_text (o2 :: plan)) [SP]).
+    rewrite IH, part_text_pair. cbn [map flat_pairs].
+    destruct (pair_of o) as [n v]. destruct (pair_of o2) as [n2 v2]. cbn [fst snd flat_pairs join].
+    now rewrite <- !app_assoc.
 Qed.
 
 Lemma fetch_line_body seq plan : plan <> [] ->
-  fetch_line seq plan = S_ "* " ++ dec seq ++ S_ " FETCH (" ++ body_of plan ++ [RP].
+  fetch_line seq plan = S_ "* " ++ dec seq ++ S_ " FETCH (" ++ join (toks_of plan) [SP] ++ [RP].
 Proof.
-  intros Hne. unfold fetch_line, body_of. rewrite accumulate_eq. cbn [app].
-  destruct plan as [|o plan]; [congruence|]. cbn [map].
-  destruct (lit_of (o :: plan) []); rewrite <- ?app_assoc; reflexivity.
+  intros Hne. unfold fetch_line. destruct plan as [|o plan]; [congruence|].
+  now rewrite join_parts.
 Qed.
 
 (** each contribution is made of single tokens, the name being an item name *)
 Definition out_okb (o : out) : bool :=
   match o with
   | Inline n v => tokb n && item_name_ok n && tokb v
-  | Lit n _ | LitOver n _ => tokb n && item_name_ok n
+  | Lit n _ => tokb n && item_name_ok n
   end.
 
 Lemma toks_tokp plan : forallb out_okb plan = true -> Forall tokp (toks_of plan).
 Proof.
   unfold toks_of. induction plan as [|o plan IH]; intros H; [constructor|].
   cbn [forallb] in H. apply andb_true_iff in H as [Ho Hp]. specialize (IH Hp).
-  destruct o as [n v|n p|n p]; cbn [out_okb] in Ho; cbn [map pair_of flat_pairs].
+  destruct o as [n v|n p]; cbn [out_okb] in Ho; cbn [map pair_of flat_pairs].
   - apply andb_true_iff in Ho as [Ho Hv]. apply andb_true_iff in Ho as [Hn _].
     constructor; [now apply tokb_tokp|]. constructor; [now apply tokb_tokp|exact IH].
-  - apply andb_true_iff in Ho as [Hn _].
-    constructor; [now apply tokb_tokp|]. constructor; [apply tokp_lit_text|exact IH].
   - apply andb_true_iff in Ho as [Hn _].
     constructor; [now apply tokb_tokp|]. constructor; [apply tokp_lit_text|exact IH].
 Qed.
@@ -202,14 +126,13 @@ Lemma toks_nonempty plan : plan <> [] -> toks_of plan <> [].
 Proof. destruct plan as [|o plan]; [congruence|]. unfold toks_of. cbn. destruct (pair_of o). discriminate. Qed.
 
 Theorem fetch_assembly_ok seq plan :
-  plan <> [] -> forallb out_okb plan = true -> classify_plan plan = None ->
+  plan <> [] -> forallb out_okb plan = true ->
   wf_stream (send (fetch_line seq plan)) = true
   /\ fetch_pairs (send (fetch_line seq plan)) = Some (dec seq, map pair_of plan).
 Proof.
-  intros Hne Hok Hc.
+  intros Hne Hok.
   pose proof (toks_tokp plan Hok) as Htok.
-  pose proof (body_tokens plan Hne Hc) as Hbody.
-  rewrite (fetch_line_body seq plan Hne), Hbody.
+  rewrite (fetch_line_body seq plan Hne).
   assert (Hbal : bal (join (toks_of plan) [SP])).
   { apply bal_join. eapply Forall_impl; [|exact Htok]. intros t. apply tokp_bal. }
   split.
@@ -244,29 +167,22 @@ Qed.
 Lemma fetch_line_default seq : fetch_line seq [] = fetch_line seq [Inline (S_ "FLAGS") (S_ "()")].
 Proof. reflexivity. Qed.
 
-(** the defect: a literal-valued contribution followed by another one *)
-Lemma classify_plan_some plan : classify_plan plan = Some multi_literal \/ classify_plan plan = None.
-Proof.
-  induction plan as [|o plan IH]; [now right|].
-  destruct plan as [|o' plan]; [now right|]. cbn [classify_plan]. destruct (is_lit o); [now left|exact IH].
-Qed.
-
 (** ---- LIST / LSUB / STATUS ---- *)
 
-Lemma name_plain_cons c n : name_plain (c :: n) = true ->
-  Ascii.eqb c DQ = false /\ Ascii.eqb c BSL = false /\ Ascii.eqb c CR = false /\ Ascii.eqb c LF = false
-  /\ name_plain n = true.
+Lemma tokp_quote_string s : clean s = true -> tokp (quote_string s).
 Proof.
-  unfold name_plain. cbn [forallb]. intros H. apply andb_true_iff in H as [H Hn].
-  repeat (apply andb_true_iff in H as [H ?]).
-  repeat match goal with H : negb _ = true |- _ => apply negb_true_iff in H end. auto.
+  intros H. unfold quote_string. split; [discriminate|].
+  cbn [nosplit]. change (boundary (Norm, 0) 0 && false && is_sep DQ) with false. cbn iota.
+  change (step (Norm, 0) DQ) with (Quo, 0). cbn [badish fst].
+  change (br_step (Norm, 0) 0 DQ) with 0.
+  apply nn_nosplit, nn_quoted, H.
 Qed.
 
-Lemma inl_quoted_name n : forall d, name_plain n = true -> inl (Quo, d) (n ++ [DQ]) = Some (Norm, d).
+Lemma unquote_quote_string s : unquote (quote_string s) = Some s.
 Proof.
-  induction n as [|c n IH]; intros d H; [reflexivity|].
-  apply name_plain_cons in H as (H1 & H2 & H3 & H4 & Hn).
-  cbn [app inl step]. rewrite H1, H2, H3, H4. cbn [orb]. cbn iota. cbn [badish fst]. now apply IH.
+  unfold quote_string, unquote. change (Ascii.eqb DQ DQ) with true. cbn iota.
+  rewrite rev_app_distr. cbn [rev app]. change (Ascii.eqb DQ DQ) with true. cbn iota.
+  now rewrite rev_involutive, unescape_escape.
 Qed.
 
 (** attribute / flag lists: no parenthesis, quote, brace, CR, LF *)
@@ -282,7 +198,7 @@ Proof.
 Qed.
 
 Theorem list_line_wf kw attrs name :
-  forallb plain_byte kw = true -> forallb flag_byte attrs = true -> name_plain name = true ->
+  forallb plain_byte kw = true -> forallb flag_byte attrs = true -> clean name = true ->
   wf_stream (send (list_line kw attrs name)) = true.
 Proof.
   intros Hk Ha Hn. unfold list_line.
@@ -292,24 +208,8 @@ Proof.
   rewrite inl_chain, (inl_plain _ 0 Hk).
   rewrite inl_chain. change (inl (Norm, 0) (S_ " (")) with (Some (Norm, 1)). cbn iota.
   rewrite inl_chain, (inl_flags _ 1 Ha).
-  rewrite inl_chain. change (inl (Norm, 1) (S_ ") ""/"" """)) with (Some (Quo, 0)). cbn iota.
-  now apply inl_quoted_name.
-Qed.
-
-Lemma unescape_plain n : name_plain n = true -> unescape n = n.
-Proof.
-  induction n as [|c n IH]; intros H; [reflexivity|].
-  apply name_plain_cons in H as (_ & H2 & _ & _ & Hn). destruct n as [|d n]; [reflexivity|].
-  change (unescape (c :: d :: n)) with (if Ascii.eqb c BSL then d :: unescape n else c :: unescape (d :: n)).
-  rewrite H2. now rewrite IH.
-Qed.
-
-(** the mailbox name a client reads back is the stored name *)
-Theorem list_name_roundtrip name : name_plain name = true -> unquote (DQ :: name ++ [DQ]) = Some name.
-Proof.
-  intros H. unfold unquote. change (Ascii.eqb DQ DQ) with true. cbn iota.
-  rewrite rev_app_distr. cbn [rev app]. change (Ascii.eqb DQ DQ) with true. cbn iota.
-  now rewrite rev_involutive, unescape_plain.
+  rewrite inl_chain. change (inl (Norm, 1) (S_ ") ""/"" ")) with (Some (Norm, 0)). cbn iota.
+  exact (tokp_bal _ (tokp_quote_string _ Hn)).
 Qed.
 
 Lemma bal_status_items items : Forall (fun kv => forallb plain_byte (fst kv) = true) items ->
@@ -322,15 +222,14 @@ Proof.
 Qed.
 
 Theorem status_line_wf name items :
-  name_plain name = true -> Forall (fun kv => forallb plain_byte (fst kv) = true) items ->
+  clean name = true -> Forall (fun kv => forallb plain_byte (fst kv) = true) items ->
   wf_stream (send (status_line name items)) = true.
 Proof.
   intros Hn Hi. unfold status_line.
-  change (S_ "* STATUS """) with ("*"%char :: S_ " STATUS """). cbn [app]. apply wf_line; [reflexivity|].
-  unfold bal. change ("*"%char :: S_ " STATUS """ ++ ?x) with (S_ "* STATUS """ ++ x).
-  rewrite inl_chain. change (inl (Norm, 0) (S_ "* STATUS """)) with (Some (Quo, 0)). cbn iota.
-  change (name ++ S_ """ (" ++ ?x) with (name ++ [DQ] ++ (S_ " (" ++ x)).
-  rewrite app_assoc, inl_chain, (inl_quoted_name _ 0 Hn).
+  change (S_ "* STATUS ") with ("*"%char :: S_ " STATUS "). cbn [app]. apply wf_line; [reflexivity|].
+  unfold bal. change ("*"%char :: S_ " STATUS " ++ ?x) with (S_ "* STATUS " ++ x).
+  rewrite inl_chain. change (inl (Norm, 0) (S_ "* STATUS ")) with (Some (Norm, 0)). cbn iota.
+  rewrite inl_chain, (tokp_bal _ (tokp_quote_string _ Hn)).
   rewrite inl_chain. change (inl (Norm, 0) (S_ " (")) with (Some (Norm, 1)). cbn iota.
   rewrite inl_chain.
   match goal with |- context [inl (Norm, 1) ?x] =>
